@@ -3,6 +3,8 @@
 From Coq Require Import List ZArith Bool Permutation.
 Import ListNotations.
 Require Import Verif.gen.MergeArms Verif.gen.SourceFacts Verif.Egg.Model Verif.Egg.Merge Verif.Egg.Collide.
+From Coq Require Import NArith.
+Require Import Verif.Base.Res Verif.Egg.SchemaPrelude Verif.gen.SchemaFns Verif.Egg.Callback.
 
 (** order of arrival does not matter for an associative-commutative merge *)
 Theorem c05_fold_perm : forall (A : Type) (m : A -> A -> A),
@@ -106,3 +108,114 @@ Proof. split; vm_compute; reflexivity. Qed.
 Example c05_example_or :
   int_get (insert_all MOr [] (mk_rows [([VId 0], 1%Z); ([VId 0], 2%Z); ([VId 0], 4%Z)])) [VId 0] = Some 7%Z.
 Proof. vm_compute; reflexivity. Qed.
+
+(* ================================================================================================
+   The bridge's row layout, merge functions and merge callback AS WRITTEN NOW (gen/SchemaFns.v is
+   regenerated from egglog-bridge/src/lib.rs on every run) *)
+
+(** SchemaMath: for ALL arities (func_cols >= 1) and both flag values the key columns are
+    [0, num_keys), ret < ts (< subsume) are pairwise distinct non-key columns inside the row width
+    and the row has no other column; without subsumption the subsume column is never computed *)
+Theorem c05_schema_layout : forall sm, (1 <= sm_func_cols sm)%N ->
+  (SchemaMath_num_keys sm + 1 = sm_func_cols sm
+  /\ SchemaMath_num_keys sm <= SchemaMath_ret_val_col sm
+  /\ SchemaMath_ret_val_col sm < SchemaMath_ts_col sm
+  /\ SchemaMath_ts_col sm < SchemaMath_table_columns sm
+  /\ (if sm_subsume sm
+      then exists c, SchemaMath_subsume_col sm = Ok c
+                     /\ SchemaMath_ts_col sm < c /\ c < SchemaMath_table_columns sm
+                     /\ SchemaMath_table_columns sm = SchemaMath_num_keys sm + 3
+      else SchemaMath_subsume_col sm = Panic
+           /\ SchemaMath_table_columns sm = SchemaMath_num_keys sm + 2))%N.
+Proof. exact schema_layout. Qed.
+Print Assumptions c05_schema_layout.
+
+(** ResolvedMergeFn::run, selective arms: Const / Old / New, no effect on the state *)
+Theorem c05_run_selectors : forall env v st c n ts,
+  ResolvedMergeFn_run env (RMF_Const v) st c n ts = Ok (v, st)
+  /\ ResolvedMergeFn_run env RMF_Old st c n ts = Ok (c, st)
+  /\ ResolvedMergeFn_run env RMF_New st c n ts = Ok (n, st).
+Proof. intros. exact (conj (run_const env v st c n ts) (conj (run_old env st c n ts) (run_new env st c n ts))). Qed.
+Print Assumptions c05_run_selectors.
+
+(** :no-merge (AssertEq): the old value is kept and the panic function is called exactly when the
+    two values differ: never silently *)
+Theorem c05_run_nomerge_panics : forall env p st c n ts, ext_call env p [] = None ->
+  ResolvedMergeFn_run env (RMF_AssertEq p) st c n ts
+  = Ok (c, if (c =? n)%N then st else st ++ [ECall p []]).
+Proof. exact run_asserteq. Qed.
+Print Assumptions c05_run_nomerge_panics.
+
+(** a primitive merge expression `(p old new)` calls p on [old; new] IN THIS ORDER (and
+    `(p new old)` on [new; old]): a non-commutative merge sees the stored value first *)
+Theorem c05_run_prim_arg_order : forall env p pn st c n ts r,
+  (ext_call env p [c; n] = Some r ->
+   ResolvedMergeFn_run env (RMF_Primitive p [RMF_Old; RMF_New] pn) st c n ts = Ok (r, st ++ [ECall p [c; n]]))
+  /\ (ext_call env p [n; c] = Some r ->
+   ResolvedMergeFn_run env (RMF_Primitive p [RMF_New; RMF_Old] pn) st c n ts = Ok (r, st ++ [ECall p [n; c]])).
+Proof. intros. split; [apply run_prim_old_new | apply run_prim_new_old]. Qed.
+Print Assumptions c05_run_prim_arg_order.
+
+(** nested merge expressions are evaluated inside-out, each on (old, new) *)
+Theorem c05_run_prim_nested : forall env p q pn qn st c n ts r1 r2,
+  ext_call env q [c; n] = Some r1 -> ext_call env p [r1; n] = Some r2 ->
+  ResolvedMergeFn_run env (RMF_Primitive p [RMF_Primitive q [RMF_Old; RMF_New] qn; RMF_New] pn) st c n ts
+  = Ok (r2, (st ++ [ECall q [c; n]]) ++ [ECall p [r1; n]]).
+Proof. exact run_prim_nested. Qed.
+Print Assumptions c05_run_prim_nested.
+
+(** a nested FUNCTION merge `(f old new)`: equal values short-cut; otherwise f is looked up on
+    [old; new]; a failed lookup keeps the old value and calls the panic function *)
+Theorem c05_run_function_arg_order : forall env f pn st c n ts,
+  ResolvedMergeFn_run env (RMF_Function f [RMF_Old; RMF_New] pn) st c n ts
+  = if (c =? n)%N then Ok (c, st)
+    else match tab_lookup_or_insert env f [c; n] with
+         | Some r => Ok (r, st ++ [ELookup f [c; n]])
+         | None => match ext_call env pn [] with
+                   | None => Ok (c, (st ++ [ELookup f [c; n]]) ++ [ECall pn []])
+                   | Some _ => Panic
+                   end
+         end.
+Proof. exact run_function_old_new. Qed.
+Print Assumptions c05_run_function_arg_order.
+
+(** the merge callback (closure of MergeFn::to_callback), any arity, with or without subsumption,
+    any merge function [run]: it runs the merge function on (current value, incoming value, incoming
+    timestamp); afterwards the row the table holds (the produced row if the callback reports
+    "changed", else the current row) has the MERGED value in its value column; a produced row has
+    the incoming row's keys and timestamp; when nothing changed NOTHING is written (the current row
+    keeps its old timestamp) *)
+Theorem c05_callback_value : forall sm run cur new st v st',
+  (1 <= sm_func_cols sm)%N ->
+  length cur = N.to_nat (SchemaMath_table_columns sm) ->
+  length new = N.to_nat (SchemaMath_table_columns sm) ->
+  run st (nth (rv sm) cur 0%N) (nth (rv sm) new 0%N) (nth (tsc sm) new 0%N) = Ok (v, st') ->
+  exists changed out, MergeFn_to_callback sm run st cur new [] = Ok (changed, st', out)
+    /\ nth (rv sm) (if changed then out else cur) 0%N = v
+    /\ (changed = true -> firstn (N.to_nat (SchemaMath_num_keys sm)) out
+                          = firstn (N.to_nat (SchemaMath_num_keys sm)) new
+                          /\ nth (tsc sm) out 0%N = nth (tsc sm) new 0%N)
+    /\ (changed = false -> out = []).
+Proof. exact callback_value. Qed.
+Print Assumptions c05_callback_value.
+
+(** exact form for tables without a subsume column: "changed" iff the merged value differs from
+    the CURRENT value *)
+Theorem c05_callback_changed_iff : forall sm run cur new st v st',
+  (1 <= sm_func_cols sm)%N ->
+  length cur = N.to_nat (SchemaMath_table_columns sm) ->
+  length new = N.to_nat (SchemaMath_table_columns sm) ->
+  sm_subsume sm = false ->
+  run st (nth (rv sm) cur 0%N) (nth (rv sm) new 0%N) (nth (tsc sm) new 0%N) = Ok (v, st') ->
+  MergeFn_to_callback sm run st cur new [] =
+    let changed := negb (nth (rv sm) cur 0 =? v)%N in
+    Ok (changed, st', if changed then set_nth (set_nth new (tsc sm) (nth (tsc sm) new 0%N)) (rv sm) v else []).
+Proof. intros sm run cur new st v st' W Lc Ln. exact (callback_nosub sm run W cur new Lc Ln st v st'). Qed.
+Print Assumptions c05_callback_changed_iff.
+
+(** non-vacuity: a non-commutative primitive (old - new) through the regenerated callback *)
+Example c05_callback_example :
+  MergeFn_to_callback (mkSchemaMath true 2) (ResolvedMergeFn_run ex_env (RMF_Primitive 7 [RMF_Old; RMF_New] 9))
+     [] [5; 10; 3; 0]%N [5; 4; 8; 1]%N []
+  = Ok (true, [ECall 7 [10; 4]%N], [5; 6; 8; 1]%N).
+Proof. exact (proj1 callback_example). Qed.
